@@ -153,6 +153,7 @@ fn ctx_for(prop: &'static dyn Prop) -> Ctx {
         profile: std::env::var("VERIF_PROFILE").unwrap_or_else(|_| "F".into()),
         known,
         journal: None,
+        part: None,
     }
 }
 
